@@ -377,7 +377,8 @@ where
             .get(index as usize)
             .ok_or(VhostUserError::InvalidParam)?;
 
-        if num == 0 || num as usize > self.max_queue_size {
+        // The queue only accepts a power of two (it silently keeps its previous size otherwise).
+        if num == 0 || num as usize > self.max_queue_size || !num.is_power_of_two() {
             return Err(VhostUserError::InvalidParam);
         }
         vring.set_queue_size(num as u16);
